@@ -220,6 +220,11 @@ def cse_cases(tier, rng, ipool):
             continue        # a subexpression is mapped by the caller before the mapper has hoisted it itself
         cases.append([("call", e1), ("copy-mapped", s3), ("call", p.Sum((w, e2))), ("call", p.Product((n1, 2)))])
         cases.append([("copy-mapped", s1), ("call", e1), ("copy", None), ("call", e2)])
+    # the caller maps a subexpression whose own text refers to a name hoisted earlier: its assignment belongs after that one
+    for inner, pf in ((u, "u"), (v, "u"), (anon1, None)):
+        ref = p.Sum((inner, 1))
+        cases.append([("call", p.Sum((inner, c))), ("copy-mapped", ref), ("call", p.Product((CSE(ref, "v"), 2)))])
+        cases.append([("call", p.Product((inner, inner))), ("copy", None), ("copy-mapped", ref), ("call", p.Sum((CSE(ref), inner))), ("call", p.Sum((w, 1)))])
     # wrappers around pool expressions
     for i in range(60 if tier == "thorough" else 20):
         x, y = rng.choice(ipool), rng.choice(ipool)
@@ -247,8 +252,8 @@ def run_case(ops):
             m = m.copy_with_mapped_cses([("_cse_pre", e)])
     decls = []
     for n, rhs in m.cse_name_list:
-        if not isinstance(rhs, str):    # a pre-mapped subexpression: its defining text is the caller's business
-            rhs = CCodeMapper()(rhs)
+        if not isinstance(rhs, str):    # a pre-mapped subexpression: its defining text is the caller's business (written with the names known so far)
+            rhs = m.copy()(rhs)
         decls.append((n, rhs))
     return dict(texts=texts, decls=decls)
 
@@ -583,8 +588,77 @@ def b_branching(tier, seed):
     return b
 
 
+def b_mixin(tier, seed):
+    """The generic CSE-splitting mix-in on the plain stringifier: the same hoisting invariants, and the assignments + texts (Python syntax) run by Python."""
+    import pymbolic.primitives as p
+    from pymbolic.mapper.stringifier import CSESplittingStringifyMapperMixin, StringifyMapper
+    from props.c06 import all_nodes
+
+    class SplitStr(CSESplittingStringifyMapperMixin, StringifyMapper):
+        pass
+    rng = random.Random(seed)
+    b = BoundedRun("cse-splitting-mixin", rule="the call-only sequences of the cse-hoisting run through one CSESplittingStringifyMapperMixin + StringifyMapper instance: names pairwise "
+                   "distinct, each assigned before use, exactly one assignment per distinct wrapped subexpression; the assignments and expression texts executed as Python on an "
+                   "integer grid give the evaluator's values", bound="as cse-hoisting without copies; grid 3 x 3 x 2", functions=["CSESplittingStringifyMapperMixin.map_common_subexpression"])
+    grid_ = [dict(a=a_, b=b_, c=c_) for a_ in (0, 2, 4) for b_ in (1, 2, 3) for c_ in (1, 3)]
+    for ops in cse_cases(tier, rng, int_pool(tier, rng)):
+        if any(op != "call" for op, _ in ops):
+            continue
+        es = [e for _, e in ops]
+
+        def go():
+            m = SplitStr()
+            texts = [m(e) for e in es]
+            return texts, list(m.cse_name_list)
+        r = outcome.run(go)
+        b.case(("mixin", repr(ops)), sample=dict(exprs=[repr(e)[:80] for e in es]))
+        if r[0] != "val":
+            b.fail(Failure("cse-splitting-mixin", f"what=mapper-raised exprs={es!r}"[:500], dict(kind="mixin", ops=repr(ops)), expected="texts", actual=outcome.describe(r)[:200],
+                           functions=["CSESplittingStringifyMapperMixin.map_common_subexpression"]))
+            continue
+        texts, decls = r[1]
+        names = [n for n, _ in decls]
+        why = None
+        if len(set(names)) != len(names):
+            why = f"name assigned twice: {sorted(n for n in set(names) if names.count(n) > 1)}"
+        kids = []
+        for e in es:
+            for nd in all_nodes(e):
+                if isinstance(nd, p.CommonSubexpression) and nd.child not in kids:
+                    kids.append(nd.child)
+        if why is None and len(decls) != len(kids):
+            why = f"{len(decls)} assignments for {len(kids)} distinct wrapped subexpressions"
+        if why is None:
+            defined = set()
+            for n, rhs in decls:
+                used = set(IDENT.findall(rhs)) & set(names)
+                if not used <= defined:
+                    why = f"{n} = {rhs} uses {sorted(used - defined)} before assignment"
+                    break
+                defined.add(n)
+        if why is None:
+            for env in grid_:
+                ns = dict(env)
+                try:
+                    for n, rhs in decls:
+                        ns[n] = eval(rhs, {}, ns)      # noqa: S307
+                    got = [eval(t, {}, ns) for t in texts]     # noqa: S307
+                except Exception as ex:      # noqa: BLE001
+                    got = f"{type(ex).__name__}: {ex}"
+                want = [expected(e, env, "int") for e in es]
+                if any(w[0] != "val" for w in want):
+                    continue
+                if got != [w[1] for w in want]:
+                    why = f"at {env}: program gives {got!r}, evaluator {[w[1] for w in want]!r}"
+                    break
+        if why:
+            b.fail(Failure("cse-splitting-mixin", f"what=mixin-invariant {why[:50].split(':')[0]} exprs={es!r}"[:500], dict(kind="mixin", ops=repr(ops)), expected="unique names, assigned once, before use; same values",
+                           actual=why[:300], functions=["CSESplittingStringifyMapperMixin.map_common_subexpression"]))
+    return b
+
+
 def bounded(tier, seed, procs):
-    return [b_programs(tier, seed, "int"), b_systematic(tier), b_programs(tier, seed, "double"), b_cse(tier, seed), b_branching(tier, seed)]
+    return [b_programs(tier, seed, "int"), b_systematic(tier), b_programs(tier, seed, "double"), b_cse(tier, seed), b_branching(tier, seed), b_mixin(tier, seed)]
 
 
 def proof_jobs(tier):
